@@ -1279,7 +1279,7 @@ def shard_blocks(ctx: Ctx) -> None:
 
 
 # ==================================================================== filters
-def _check_filter(ctx: Ctx, B: _BlockLib, F, g: GenBlock, mined: bool) -> None:
+def _check_filter(ctx: Ctx, B: _BlockLib, F, g: GenBlock, mined: bool, collide: bool = False) -> None:
     rng = ctx.rng
     raws = g.txs
     root = rm.block_merkle_root(raws)[0]
@@ -1292,9 +1292,25 @@ def _check_filter(ctx: Ctx, B: _BlockLib, F, g: GenBlock, mined: bool) -> None:
     h80 = header.serialize(check_validity=False)
     block_hash = rm.dsha256(h80)  # internal order
     blk = B.Block(header, B.txs(raws), check_validity=False)
+    key = rg.key_from_block_hash(block_hash)
+    if collide and len(g.prev_scripts) >= 2:
+        # two *different* spent scripts that hash to one value of [0, N*M): BIP158 keeps both (the second as a delta of
+        # zero). The key is the block hash, which the spent scripts are not part of, so a pair can be searched for
+        def fresh():
+            return b"\x76\xa9\x14" + rng.randbytes(20) + b"\x88\xac"
+        g.prev_scripts[0], g.prev_scripts[1] = fresh(), fresh()
+        n0 = len(rg.basic_filter_elements(raws, g.prev_scripts))
+        seen: dict[int, bytes] = {}
+        for _ in range(60000):
+            c = fresh()
+            v = rg.hash_to_range(c, n0 * rg.BASIC_M, key)
+            if v in seen and seen[v] != c:
+                g.prev_scripts[0], g.prev_scripts[1] = seen[v], c
+                ctx.classes["filter:two-scripts-one-hashed-value"] += 1
+                break
+            seen[v] = c
     items = rg.basic_filter_elements(raws, g.prev_scripts)
     want = rg.serialized_filter(items, block_hash)
-    key = rg.key_from_block_hash(block_hash)
     n = len(items)
     all_scripts = [s for t in raws for _, s in t.vout] + list(g.prev_scripts)
     excluded = [s for s in all_scripts if not s or s[0] == 0x6A]
@@ -1433,7 +1449,7 @@ def shard_filters(ctx: Ctx) -> None:
                     g.prev_scripts[0] = rng.choice(outs)
                 if len(g.prev_scripts) > 1:
                     g.prev_scripts[-1] = g.prev_scripts[0]
-            _check_filter(ctx, B, F, g, mined=(it % 5 == 0))
+            _check_filter(ctx, B, F, g, mined=(it % 5 == 0), collide=(n_spend in (1, 2, 3, 5, 17) and it % 3 == 1))
             it += 1
     if ctx.out_of_time():
         ctx.notes.append(f"{ctx.shard}: budget reached after {it} filters")
